@@ -68,12 +68,12 @@ def run_scenario(shape, edits, vals, expect_exception=None):
     return info, problems
 
 
-def scenario_space(tier, seed, kinds=None, funcs=(False, True), cfis=("none",), anns=("none",), patches=None, doubles=True, data_follows=(False,), multi=True, callee2=(False,)):
+def scenario_space(tier, seed, kinds=None, funcs=(False, True), cfis=("none",), anns=("none",), patches=None, doubles=True, data_follows=(False,), multi=True, callee2=(False,), bare=(False,)):
     kinds = kinds or list(scen.KINDS)
     patches = patches or ["plain", "jmpL2", "ret", "callg", "jcc", "lab", "lab0", "jmplab"]
     rnd = random.Random(seed)
-    for kind, fn, cfi, ann, df, c2 in itertools.product(kinds, funcs, cfis, anns, data_follows, callee2):
-        shape = scen.Shape(kind, fn, cfi, ann, df, c2)
+    for kind, fn, cfi, ann, df, c2, br1 in itertools.product(kinds, funcs, cfis, anns, data_follows, callee2, bare):
+        shape = scen.Shape(kind, fn, cfi, ann, df, c2, br1)
         singles = scen.single_edits(kind, patches)
         for e in singles:
             yield shape, [e]
@@ -94,7 +94,8 @@ def scenario_space(tier, seed, kinds=None, funcs=(False, True), cfis=("none",), 
             sizes = {0: 1, 1: len(scen.KINDS[kind][0]), 2: 2}
             for r in (2, 3):
                 for combo in itertools.combinations((0, 1, 2), r):
-                    yield shape, [("del", 0, sizes[t], None, t) for t in combo]
+                    for ops in itertools.product(("del", "delproxy"), repeat=r):
+                        yield shape, [(op, 0, sizes[t], None, t) for op, t in zip(ops, combo)]
             for pn in ("plain", "callg", "ret"):
                 for first in (("ins", sizes[1], 0, "plain", 1), ("del", 0, 1, None, 1), ("ins", 0, 0, "callg", 0)):
                     yield shape, [first, ("ins", 1, 0, pn, 2)]
@@ -111,7 +112,7 @@ def bounded_job(vals, clauses, bound_text, **space):
             seen_fail = collections.Counter()
             for shape, edits in scenario_space(tier, seed, **space):
                 br.cases += 1
-                distinct.add((shape.kind, shape.funcs, shape.cfi, shape.ann, tuple(edits)))
+                distinct.add((repr(shape), tuple(edits)))
                 try:
                     info, problems = run_scenario(shape, edits, vals)
                 except Exception as e:
